@@ -22,6 +22,41 @@ def python_defs(path):
     return sorted(funcs), sorted(classes)
 
 
+def _indent(line):
+    return len(line) - len(line.lstrip(" "))
+
+
+def trailing_comment_rows(lines, spec, impl):
+    """Rows of `impl` that differ from `spec` only by an end line that additionally covers own-line comments (and blank lines
+    between them) which follow the last statement of the definition and are indented deeper than its header: tree-sitter keeps
+    such a comment inside the block, python3 ast ends the definition at its last statement.  Returns {impl row: spec row}."""
+    out = {}
+    by = {(n, a): (n, a, b) for n, a, b in spec}
+    for row in impl:
+        n, a, b = row
+        sp = by.get((n, a))
+        if sp is None or row in spec or b <= sp[2] or b > len(lines):
+            continue
+        between = lines[sp[2]:b]                       # source lines sp.end+1 .. b (1-based)
+        if all(x.strip() == "" or x.lstrip().startswith("#") for x in between) and between[-1].lstrip().startswith("#") \
+                and all(_indent(x) > _indent(lines[a - 1]) for x in between if x.strip()):
+            out[row] = sp
+    return out
+
+
+def dedented_comment_after_decorator(lines):
+    """A decorator line followed by an own-line comment indented LESS than the decorator (valid Python: comment lines carry no
+    indentation): tree-sitter-python closes the block at the comment and the file does not parse."""
+    for i, x in enumerate(lines[:-1]):
+        if x.lstrip().startswith("@") or (i > 0 and lines[i - 1].rstrip().endswith(",") and lines[i - 1].lstrip().startswith("@")):
+            j = i + 1
+            while j < len(lines) and lines[j].strip() == "":
+                j += 1
+            if j < len(lines) and lines[j].lstrip().startswith("#") and _indent(lines[j]) < _indent(x if x.lstrip().startswith("@") else lines[i - 1]):
+                return True
+    return False
+
+
 def main(tier):
     ck = lib.Check("C04", tier)
     ck.prepare("C04.v")
@@ -34,6 +69,24 @@ def main(tier):
     for m in mods[len(mods) // 2:]:
         m["ast"], m["lines"] = pygen.layout(m["ast"], deco_rng=rng)
         m["decorated"] = True
+    # trivia at clause positions (comments are named children in tree-sitter, blank lines and continuations are extras): random
+    # trivia on a share of the decorated modules, then the systematic lattice: every (statement kind, clause, slot, kind) once with
+    # definitions in every clause, and every kind at all slots at once
+    n_rt = 0
+    for m in mods[len(mods) // 2:]:
+        if rng.random() < 0.4:
+            tv = pygen.Trivia(rng=rng, p=0.12, exclude=[('deco', 'c_col0')])
+            m["ast"], m["lines"] = pygen.layout(m["ast"], deco_rng=rng, trivia=tv)
+            m["trivia_used"] = tv.used
+            n_rt += 1
+    tmods = pygen.trivia_cases(rng, sample=None if thorough else 0.25)
+    if not thorough:
+        # the Coq model of the registry does not see trivia (the statement tree is the same with and without it): in the quick tier
+        # the model tie is evaluated on the random modules and on a few of the trivia modules only; the decision against the
+        # spec (pygen's own name/span knowledge, cross-checked with python3 ast) is made for every module
+        for i, m in enumerate(tmods):
+            m["no_model"] = i % 6 != 0
+    mods += tmods
     for _ in range(3):
         a, lines = pygen.layout(dup_module(rng))
         mods.append({"ast": a, "lines": lines, "dup": True})
@@ -55,16 +108,33 @@ def main(tier):
     rows = None
     try:
         jobs = []
-        shard = 15
-        for off in range(0, len(mods), shard):
-            items = [pygen.coq_block(m["ast"]) for m in mods[off:off + shard]]
+        # contiguous shards of about equal source size (the trivia modules are several times longer than the random ones)
+        mm = [m for m in mods if not m.get("no_model")]
+        budget = sum(len(m["lines"]) for m in mm) / 8.0 + 1
+        cuts, acc = [0], 0
+        for i, m in enumerate(mm):
+            acc += len(m["lines"])
+            if acc >= budget:
+                cuts.append(i + 1)
+                acc = 0
+        if cuts[-1] != len(mm):
+            cuts.append(len(mm))
+        for off, end in zip(cuts, cuts[1:]):
+            items = [pygen.coq_block(m["ast"]) for m in mm[off:end]]
             jobs.append(("C04_%d" % off, REQ, "Definition mods : list block := %s.\nEval vm_compute in (map (fun m => (registry m, all_defs m, lcom_class_rows m, all_classes m)) mods).\n" % lib.clist(items)))
         rows = []
         for out in lib.coq_eval_many(jobs, workers=12):
             rows += lib.parse_coq_values(out)[0]
+        if len(rows) != len(mm):
+            raise RuntimeError("%d model rows for %d modules" % (len(rows), len(mm)))
+        it = iter(rows)
+        rows = [None if m.get("no_model") else next(it) for m in mods]
     except Exception as e:
+        rows = None
         ck.broken_ties.append("model evaluation failed: " + str(e)[-1500:])
-    stats = dict(modules=len(mods), defs=0, nested_defs=0, methods=0, classes=0, nested_classes=0, dup_modules=0, max_depth=0)
+    stats = dict(modules=len(mods), defs=0, nested_defs=0, methods=0, classes=0, nested_classes=0, dup_modules=0, max_depth=0,
+                 trivia_random_modules=n_rt, trivia_modules=len(tmods), trivia_single_position_cases=0, trivia_slots_used={},
+                 trailing_comment_spans=0, files_dropped_known=0, model_tie_modules=0)
     nviol = tie = 0
 
     def viol(what, rep):
@@ -82,10 +152,29 @@ def main(tier):
         stats["nested_defs"] += sum(1 for p, s in defs if len(p) > 1)
         stats["max_depth"] = max([stats["max_depth"]] + [len(p) for p, s in defs])
         stats["dup_modules"] += bool(m.get("dup"))
+        stats["trivia_single_position_cases"] += sum(1 for c in m.get("trivia_case", ()) if not c.startswith("all/"))
+        for (slot, kind), n in (m.get("trivia_used") or {}).items():
+            key = slot.split(":")[0] + "/" + kind
+            stats["trivia_slots_used"][key] = stats["trivia_slots_used"].get(key, 0) + n
         # cross-check of the layout function against CPython's parser
         pf, pc = python_defs(m["path"])
         if sorted((n.split(".")[-1], a, b) for n, a, b in spec) != pf:
             ck.broken_ties.append("layout tie: pygen.layout and python3 ast disagree on def spans in %s" % m["path"])
+        file_dropped = not m["impl_funcs"] and not m["impl_classes"]
+        if file_dropped and spec and dedented_comment_after_decorator(m["lines"]):
+            # the whole file is missing from the report (not even its __main__ row)
+            kf = ck.match_known({"class": "dedented-comment-after-decorator-drops-file"})
+            if kf is not None:
+                stats["files_dropped_known"] += 1
+                ck.known_finding(kf)
+                continue
+        tr_f = trailing_comment_rows(m["lines"], spec, impl)
+        if tr_f:
+            kf = ck.match_known({"class": "trailing-comment-in-span"})
+            if kf is not None:
+                stats["trailing_comment_spans"] += len(tr_f)
+                ck.known_finding(kf)
+                impl = sorted(tr_f.get(r, r) for r in impl)
         if impl != spec:
             names = [n for n, _, _ in spec]
             dup = len(set(names)) != len(names)
@@ -96,8 +185,8 @@ def main(tier):
             else:
                 missing = [x for x in spec if x not in impl]
                 extra = [x for x in impl if x not in spec]
-                viol("definitions of %s are not reported exactly once with dotted name and line span: missing %s, unexpected %s"
-                     % (m["path"], missing[:4], extra[:4]),
+                viol("definitions of %s are not reported exactly once with dotted name and line span: missing %s, unexpected %s%s"
+                     % (m["path"], missing[:4], extra[:4], (" [trivia cases: %s]" % m["trivia_case"][:20]) if m.get("trivia_case") else ""),
                      {"kind": "functions", "file": m["path"], "source": m["lines"], "expected": spec, "reported": impl})
         if n_main != 1:
             viol("expected exactly one __main__ row for %s, found %d" % (m["path"], n_main), {"kind": "main-row", "file": m["path"]})
@@ -117,19 +206,31 @@ def main(tier):
         walk(m["ast"], [])
         cspec = sorted((pygen.qualname(p, m["ast"]), s[1], pygen.end_line(s)) for p, s in cls)
         cimpl = sorted(m["impl_classes"])
+        if sorted((n.split(".")[-1], a, b) for n, a, b in cspec) != pc:
+            ck.broken_ties.append("layout tie: pygen.layout and python3 ast disagree on class spans in %s" % m["path"])
         stats["classes"] += len(cspec)
         stats["nested_classes"] += sum(1 for p, s in cls if len(p) > 1)
+        bare = sorted((n.split(".")[-1], a, b) for n, a, b in cspec)
+        tr_c = trailing_comment_rows(m["lines"], sorted(set(cspec + bare)), cimpl)   # lcom rows carry bare names (F20)
+        if tr_c:
+            kf = ck.match_known({"class": "trailing-comment-in-span"})
+            if kf is not None:
+                stats["trailing_comment_spans"] += len(tr_c)
+                ck.known_finding(kf)
+                cimpl = sorted(tr_c.get(r, r) for r in cimpl)
         if cimpl != cspec:
-            bare = sorted((n.split(".")[-1], a, b) for n, a, b in cspec)
             kf = ck.match_known({"class": "nested-class-bare-name"})
             if kf is not None and cimpl == bare and any(len(p) > 1 for p, s in cls):
                 ck.known_finding(kf)
             else:
-                viol("classes of %s are not reported exactly once with dotted name and line span: expected %s, reported %s"
-                     % (m["path"], cspec[:5], cimpl[:5]),
+                ref = bare if (kf is not None and not set(cimpl) & set(cspec) - set(bare)) else cspec
+                viol("classes of %s are not reported exactly once with dotted name and line span: missing %s, unexpected %s (of %d expected)%s"
+                     % (m["path"], [x for x in ref if x not in cimpl][:4], [x for x in cimpl if x not in ref][:4], len(cspec),
+                        (" [trivia cases: %s]" % m["trivia_case"][:20]) if m.get("trivia_case") else ""),
                      {"kind": "classes", "file": m["path"], "source": m["lines"], "expected": cspec, "reported": cimpl})
         # tie: model rows
-        if rows is not None:
+        if rows is not None and rows[mi] is not None:
+            stats["model_tie_modules"] += 1
             reg, alld, lrows, allc = rows[mi]
             model_f = sorted((pygen.qualname(list(q), m["ast"]), k) for q, k in reg)
             if model_f != sorted((n, a) for n, a, _ in impl):
@@ -147,10 +248,18 @@ def main(tier):
     ck.cov.update({
         "evaluations": stats["defs"] + stats["classes"], "distinct_nontrivial": stats["nested_defs"] + stats["nested_classes"] + 2,
         "rule": "generated modules with defs/classes at any nesting (in if/for/try/with bodies, methods, defs in methods, classes in defs); "
+                "clause trivia (pygen.Trivia): comments, blank lines and backslash continuations on the header line after the colon, on own "
+                "lines before the first statement of a block (at block, column-0, header and deeper indentation), after the last statement "
+                "of a block (= before the next elif/else/except/except*/finally/case clause) and between decorators and the header, for "
+                "every clause kind (if elif else for while loop-else try except except* try-else finally with match case def class, async "
+                "forms) - every (statement kind, clause, slot, kind) at exactly one position with a def and a class in EVERY clause "
+                "(quick: a seed-dependent quarter of them; thorough: all), every kind at all positions at once, and at random in the "
+                "decorated modules; "
                 "one evaluation = one def or class statement checked for presence exactly once with dotted name, start and end line; "
                 "distinct_nontrivial = nested definitions",
         "input_distribution": stats, "disagreements_checked": nviol + tie,
     })
     ck.trusted += ["Coq 8.16.1 kernel; vm_compute", "harness/pygen.py layout, cross-checked against python3 ast.walk on every module",
                    "hand-written model Cfg/Defs.v of the BuildAll registry and lcom.collectClasses"]
-    ck.finish(assumptions=["half of the modules carry random decorators (one of them spanning two lines) and async defs"])
+    ck.finish(assumptions=["half of the modules carry random decorators (one of them spanning two lines) and async defs",
+                          "trivia files are valid Python (python3 ast.parse accepts every one) and are never executed"])
